@@ -102,6 +102,20 @@ InScope(c) ==
     /\ (Tier = "quick" /\ c.file.on => c.allowed = {} /\ c.groups = <<"g1">>)
     /\ (Tier = "quick" /\ c.kind \in {"login", "request"} /\ c.allowed # {} => c.rules \in {{<<"star">>}, {EX}})
 
+\* ---- rule change at run time: the authenticated-e-mails file is rewritten between login and later requests ----
+\* v1 / v2: file contents before / after; alice is the identity; a sentinel entry per version (not shown) lets the harness see
+\* that the reload has completed (for an emptied file: that the previous sentinel is gone)
+FileVersions == { {}, {"alice"}, {"alice", "bob"}, {"bob"} }
+FileChangeRec(v1, v2, emptyStyle) ==
+    [fam |-> "c08file", in |-> [v1 |-> SetAsSeq(v1), v2 |-> SetAsSeq(v2), emptyStyle |-> emptyStyle],
+     steps |-> << [a |-> "login", args |-> [when |-> "before"], req |-> IF "alice" \in v1 THEN [session |-> "set"] ELSE [session |-> [not |-> "set"]]],
+                  [a |-> "rewrite", args |-> [v |-> 2], req |-> [reloaded |-> TRUE]],
+                  [a |-> "request", args |-> [holds |-> "alice" \in v1],
+                   req |-> IF "alice" \notin v1 THEN [skipped |-> TRUE]
+                           ELSE IF "alice" \in v2 THEN [served |-> TRUE]
+                           ELSE [served |-> FALSE, status |-> [oneof |-> <<401, 403>>], session |-> "cleared"]],
+                  [a |-> "login", args |-> [when |-> "after"], req |-> IF "alice" \in v2 THEN [session |-> "set"] ELSE [session |-> [not |-> "set"]]] >>]
+
 VARIABLE c
 Init == \E k \in Kinds, e \in Emails, gs \in GroupLists, rs \in DomainRuleSets, f \in Files, al \in AllowedGroups, q \in Queries,
            st \in {"cookie", "redis"} : c = Mk(k, e, gs, rs, f, al, q, st) /\ InScope(c)
@@ -129,4 +143,7 @@ CaseRec(d) == [fam |-> "c08",
 \* non-vacuity is checked by the orchestrator on the emitted cases (both outcomes of every kind)
 EmitVocab == JsonSerialize("vocab.json", Vocab)
 EmitCase  == CSVWrite("%1$s", <<ToJson(CaseRec(c))>>, "cases.ndjson")
+\* the file-change histories are few: emitted once
+EmitFileCases == \A v1 \in FileVersions, v2 \in FileVersions, es \in {"empty", "comment"} :
+                    (v1 # v2 /\ (v2 = {} \/ es = "empty")) => CSVWrite("%1$s", <<ToJson(FileChangeRec(v1, v2, es))>>, "cases_file.ndjson")
 =============================================================================
